@@ -11,7 +11,7 @@ func init() {
 	Register("c04", runC04)
 }
 
-var c04Odd = []string{"unknown", "_hidden", "fe80::1%eth0", "fe80::2%eth0", "fe80::1%eth1", "10.1.0.10:5555", "10.1.0.11:5555", "[2001:db8::7]:4711", "client-a.example.test", "client-b.example.test"}
+var c04Odd = []string{"", "unknown", "_hidden", "fe80::1%eth0", "fe80::2%eth0", "fe80::1%eth1", "10.1.0.10:5555", "10.1.0.11:5555", "[2001:db8::7]:4711", "client-a.example.test", "client-b.example.test"}
 
 var c04Addrs = []string{"10.1.0.10", "192.168.7.7", "172.16.200.3", "2001:db8::7", "fe80::1", "203.0.113.9", "10.1.0.11", "::1", "127.0.0.1"}
 
@@ -102,7 +102,11 @@ func runC04(c *Ctx) {
 	if viaXFF {
 		peerIP = []string{"10.200.0.1", "10.200.0.2", addrA}[c.T.Choose(3)] // the proxy; may even be A itself
 		chain := []string{addrB}
-		for k := c.T.Choose(4); k > 0; k-- {
+		nmore := c.T.Choose(4)
+		if addrB == "" && nmore == 0 {
+			nmore = 1 // an empty first element needs a second one to be a list at all
+		}
+		for k := nmore; k > 0; k-- {
 			chain = append(chain, []string{"10.200.0.9", addrA, "198.51.100.1", "unknown"}[c.T.Choose(4)])
 		}
 		sep := []string{",", ", ", " , "}[c.T.Choose(3)]
@@ -134,6 +138,9 @@ func runC04(c *Ctx) {
 		if c.T.Bool(1, 2) || oddA {
 			b.From = "10.200.0.7:52000"
 			b.XFF = addrA + []string{"", ", 10.200.0.9", " , 198.51.100.2, 10.200.0.9"}[c.T.Choose(3)]
+			if addrA == "" {
+				b.XFF = ", 10.200.0.9"
+			}
 			issued = "real-download(xff=" + b.XFF + ")"
 		}
 		// the session may have been established from somewhere else: the address that counts
